@@ -18,29 +18,37 @@ META = {
                   "successful call computed from the value its predecessor left (memberlist: or read 'absent' and was merged), that nothing is lost or "
                   "invented, that a call is applied at most once and iff it reported success, and (action property) that a failing or declining call "
                   "leaves the cell unchanged. Binding: every transition of the 2-caller x 2-call state graph (all stores, all outcomes of f: put with and "
-                  "without retry flag, decline, error with and without retry, retry-limit exhaustion; thorough: also the 3-caller graph) is executed on "
-                  "the real clients - bare, behind kv.PrefixClient, behind the metrics wrapper, behind a mirroring MultiClient - with f as the gate "
-                  "between the store's read and its conditional write, and after every step the value handed to f, the call's result, Get and the "
-                  "mirror store are compared with the specification's. Runs of 2..16 callers x up to 50 calls (seeded gate scheduler, and free-running "
-                  "goroutines) are recorded from the real stores and accepted by TLC only if they are behaviours of the same specification.",
+                  "without retry flag, decline, error with and without retry, input returned unchanged incl. memberlist's 'no change detected' 1 s sleep "
+                  "on the synctest clock, retry-limit exhaustion; thorough: also the 3-caller graph) is executed on the real clients - bare, behind "
+                  "kv.PrefixClient, behind the metrics wrapper, behind a mirroring MultiClient - with f as the gate between the store's read and its "
+                  "conditional write, and after every step the value handed to f, the call's result, Get and the mirror store are compared with the "
+                  "specification's. Runs of 2..16 callers x up to 50 calls (seeded gate scheduler with 1..3 WatchKey/WatchPrefix watchers, and "
+                  "free-running goroutines) are recorded from the real stores and accepted by TLC only if they are behaviours of the same specification "
+                  "in which every watcher, after quiescence, has been called with the latest value and only ever with values the store held, in order. "
+                  "Thorough also: watcher liveness (EventuallyLatest) on the specification; and, outside C07's quantifier, conformance of the "
+                  "specification's Delete model to the Consul/etcd mocks and of KVMulti.tla (MultiClient primary switch with CAS calls in flight) to the "
+                  "real MultiClient.",
     "level_note": "Bounds: exhaustive only for <=3 callers x 2 calls on one key; recorded runs keep callers x calls <= 100 so that values stay small. "
                   "Trusted: TLC, testing/synctest quiescence, the harness value type (grow-only set of (caller, call, position); a memberlist Mergeable). "
                   "The granularity of the specification is the f callback (a failed comparison and the following re-read are one step). The metrics "
                   "wrapper and the MultiClient can only be built over the process-wide in-memory Consul store and a memberlist KV (unexported "
-                  "constructors). Deletes are outside the property; MC_aba documents what the mocks do with them. The real Consul/etcd servers are "
-                  "not exercised, only dskit's clients against dskit's own in-process mocks.",
-    "technique": "TLA+ specification (KVCas.tla) model-checked by TLC; TLC-generated behaviours replayed into the real clients inside testing/synctest; "
-                 "traces recorded from the real clients validated by TLC against KVCasTrace.tla",
-    "design_ref": "DESIGN.md 2 C07",
+                  "constructors); watchers are not attached where the primary is that process-wide store (it lives outside the synctest bubble). "
+                  "Outside the property and marked as such in the evidence: Delete (etcd mock Version restarts = ABA; Consul mock accepts any index on an "
+                  "absent key) and the primary switch of a MultiClient (a call in flight on the old primary mirrors its output over the new primary: "
+                  "reproduced on the real code, reported, does not fail C07). The real Consul/etcd servers are not exercised, only dskit's clients "
+                  "against dskit's own in-process mocks.",
+    "technique": "TLA+ specifications (KVCas.tla, KVMulti.tla) model-checked by TLC; TLC-generated behaviours replayed into the real clients inside "
+                 "testing/synctest; traces recorded from the real clients validated by TLC against KVCasTrace.tla",
+    "design_ref": "DESIGN.md 2 C07, 4",
 }
 
 ALL = '{"consul", "etcd", "memberlist"}'
 INV = "Serial SeenChain NoLostNoPhantom SawCurrent"
 
 
-def subst(nc, ops, maxerr, emit, backends=ALL, secondaries='{"none"}', limit=10, delete=False, inv=INV):
+def subst(nc, ops, maxerr, emit, backends=ALL, secondaries='{"none"}', limit=10, delete=False, inv=INV, same=False, nw=0):
     return {"@@NC@@": nc, "@@OPS@@": ops, "@@BACKENDS@@": backends, "@@LIMIT@@": limit, "@@MAXERR@@": maxerr,
-            "@@SECONDARIES@@": secondaries, "@@DELETE@@": "TRUE" if delete else "FALSE",
+            "@@SECONDARIES@@": secondaries, "@@DELETE@@": "TRUE" if delete else "FALSE", "@@SAME@@": "TRUE" if same else "FALSE", "@@NW@@": nw,
             "@@EMIT@@": "TRUE" if emit else "FALSE", "@@INV@@": inv}
 
 
@@ -71,7 +79,7 @@ def dedup_prefixes(src, dst):
     return n, kept
 
 
-def replay(ctx, gens, label, variants=None, timeout=900, record_rounds=0, count=True):
+def replay(ctx, gens, label, variants=None, timeout=900, record_rounds=0, count=True, test=None):
     """gens: [(name, TLCResult)] of emitting runs. The prefix-free behaviours of all of them go through one harness run
     (which also records the code -> spec traces when record_rounds > 0; they are validated afterwards).
     Self-test knobs read by the harness: VERIF_CORRUPT_REPLAY=val|e (one expected output), VERIF_CORRUPT_TRACE=final|in|ok (one logged field)."""
@@ -98,8 +106,11 @@ def replay(ctx, gens, label, variants=None, timeout=900, record_rounds=0, count=
     if record_rounds:
         trace = ctx.path("c07_trace.ndjson")
         env.update({"VERIF_TRACE": trace, "VERIF_ROUNDS": record_rounds})
-    res = ctx.run_harness("c07", "^TestAll$" if record_rounds else "^TestReplay$", env=env, timeout=timeout)
+    res = ctx.run_harness("c07", test or ("^TestAll$" if record_rounds else "^TestReplay$"), env=env, timeout=timeout)
     ex = res.get("extra") or {}
+    if test:                        # drivers other than TestReplay report plain case counts
+        ex.setdefault("behaviours_read", res.get("cases"))
+        ex.setdefault("replayed", res.get("cases"))
     ctx.log("%s: %d transitions -> %d maximal behaviours -> %s replays on real clients, %s mismatches" % (
         label, ntrans, kept, ex.get("replayed"), ex.get("mismatches_total")))
     if not res.get("fatal") and (ex.get("behaviours_read") != kept or ex.get("replayed", 0) < kept):
@@ -114,10 +125,8 @@ def replay(ctx, gens, label, variants=None, timeout=900, record_rounds=0, count=
     recorded = ex.pop("recorded", None)
     before = (ctx.traces, ctx.evaluations, ctx.nontrivial)
     ctx.absorb(res, label)          # replay mismatches are violations whatever the validator says
-    if not count:                   # documentation configs: compared like the rest, but not C07 evidence
-        ctx.extra["replays_outside_quantifier_" + label] = ctx.traces - before[0]
-        ctx.traces, ctx.evaluations, ctx.nontrivial = before
-        ctx.extra["transitions_covered_by_replay"] -= ntrans
+    if not count:                   # growth of the specification beyond C07's quantifier: counted, but marked
+        ctx.extra.setdefault("replays_outside_C07_quantifier", {})[label] = ctx.traces - before[0]
     if trace:
         validate_recorded(ctx, trace, recorded)
 
@@ -129,7 +138,8 @@ def tlc(ctx, label, sub, timeout, coverage=False, count=True):
     m = re.search(r"Finished computing initial states: (\d+) distinct state", r.log)
     r.init_states = int(m.group(1)) if m else 0
     if coverage:
-        zero = [a for a in r.coverage_zero if a != "Delete"]
+        # Delete is off in property configs; the watcher disjuncts of Next range over 1..NW = {} here (MC_watch.cfg covers them)
+        zero = [a for a in r.coverage_zero if a not in ("Delete", "Next")]
         if zero:
             incon("%s: actions never taken (vacuity): %s" % (label, zero))
     return r
@@ -189,17 +199,23 @@ def run(ctx):
     thorough = ctx.tier == "thorough"
 
     # 1. the property, exhaustively: 3 callers x 2 calls, all three stores
-    r = tlc(ctx, "property 3x2", subst(3, 2, 1 if thorough else 0, False), timeout=1500, coverage=thorough)
+    #    (thorough: f may also fail-with-retry once per call and return its input unchanged - Same / Tick)
+    r = tlc(ctx, "property 3x2", subst(3, 2, 1 if thorough else 0, False, same=thorough), timeout=1500, coverage=thorough)
     ctx.extra["property_states_3x2"] = r.distinct
 
     # 2. every transition of the 2x2 graph (all stores, MultiClient setups) on the real clients, and retry-limit
     #    exhaustion: 2 callers x 1 call where f may fail-with-retry as often as the limit allows
-    gens = [("gen2x2", tlc(ctx, "gen 2x2", subst(2, 2, 1, True, secondaries='{"none", "consul", "memberlist"}'), timeout=600)),
-            ("exhaust", tlc(ctx, "gen exhaust", subst(2, 1, 10, True), timeout=600))]
+    #    (f's outcomes: put with/without retry flag, decline, error with/without retry, input returned unchanged -
+    #    memberlist's 1 s sleep after "no change detected" runs on the bubble clock; the quick tier has the latter
+    #    in the 2x1 exhaustion graph only, to stay within its time budget)
+    gens = [("gen2x2", tlc(ctx, "gen 2x2", subst(2, 2, 1, True, secondaries='{"none", "consul", "memberlist"}', same=thorough), timeout=600)),
+            ("exhaust", tlc(ctx, "gen exhaust", subst(2, 1, 10, True, same=True), timeout=600))]
     if thorough:
         # the Consul client with a configured limit of 3 (Config.MaxCasRetries); 3 callers x 1 call behind every wrapper
         gens.append(("limit3", tlc(ctx, "gen consul limit 3", subst(2, 2, 3, True, backends='{"consul"}', limit=3), timeout=600)))
-        gens.append(("gen3x1", tlc(ctx, "gen 3x1", subst(3, 1, 1, True, secondaries='{"none", "consul", "memberlist"}'), timeout=600)))
+        gens.append(("gen3x1", tlc(ctx, "gen 3x1", subst(3, 1, 1, True, secondaries='{"none", "consul", "memberlist"}', same=True), timeout=600)))
+        # memberlist: "no change detected" as often as the limit allows (9 sleeps, then the call fails), 2 callers x 2 calls
+        gens.append(("nochange", tlc(ctx, "gen memberlist no-change", subst(2, 2, 10, True, backends='{"memberlist"}', same=True), timeout=600)))
     # ... and, in the same harness process, code -> spec: recorded runs, validated by KVCasTrace.tla
     replay(ctx, gens, "all-variants", record_rounds=3 if thorough else 1)
 
@@ -211,7 +227,7 @@ def run(ctx):
         #    Consul and etcd mocks do with it is replayed on the real clients like everything else; on that model TLC
         #    finds that a successful write need no longer be computed from the value it replaces (etcd mock: Version
         #    restarts at 1 = ABA; Consul mock: an absent key accepts any index).
-        r = tlc(ctx, "gen delete", subst(2, 2, 0, True, backends='{"consul", "etcd"}', delete=True, inv=""), timeout=600, count=False)
+        r = tlc(ctx, "gen delete", subst(2, 2, 0, True, backends='{"consul", "etcd"}', delete=True, inv=""), timeout=600)
         replay(ctx, [("delete", r)], "delete", variants="consul/bare,etcd/bare", count=False)
         for be in ("etcd", "consul"):
             ra = ctx.tlc("kvcas", "KVCas", cfg="MC.cfg", timeout=300, deadlock=False, count=False, workers=4,
@@ -220,4 +236,37 @@ def run(ctx):
                 "SawCurrent violated (a successful write was computed from a value other than the one it replaced)"
                 if ra.violated == "SawCurrent" else "no violation found (rc=%s violated=%s)" % (ra.rc, ra.violated))
 
+        # 5. watchers: safety and liveness (EventuallyLatest under weak fairness of deliveries) on the specification;
+        #    the binding is in the recorded runs (every scheduler-driven run carries 1..3 WatchKey / WatchPrefix watchers)
+        rw = ctx.tlc("kvcas", "KVCas", cfg="MC_watch.cfg", timeout=900, workers=int(os.environ.get("VERIF_TLC_WORKERS", "8")))
+        ctx.require_tlc_ok(rw, "watchers (liveness)")
+        ctx.extra["watch_liveness_states"] = rw.distinct
+        # 6. growth beyond C07 (DESIGN 4): the primary of a mirroring MultiClient is switched while CAS calls are in flight
+        multi_switch(ctx)
     return "model_checking"
+
+
+def msubst(nc, ops, sw, emit, inv):
+    return {"@@NC@@": nc, "@@OPS@@": ops, "@@SW@@": sw, "@@EMIT@@": "TRUE" if emit else "FALSE", "@@INV@@": inv}
+
+
+def multi_switch(ctx):
+    w = int(os.environ.get("VERIF_TLC_WORKERS", "8"))
+    # without a switch no call applied to the primary is ever lost from it, whatever the mirror writes do
+    r0 = ctx.tlc("kvcas", "KVMulti", cfg="MCM.cfg", subst=msubst(2, 2, 0, False, "NoLostOnPrimary"), timeout=600, deadlock=False, workers=w)
+    ctx.require_tlc_ok(r0, "KVMulti without switch")
+    # with one switch: the model conforms to the real MultiClient on every transition ...
+    r1 = ctx.tlc("kvcas", "KVMulti", cfg="MCM.cfg", subst=msubst(2, 2, 1, True, ""), timeout=600, deadlock=False, workers=w)
+    ctx.require_tlc_ok(r1, "KVMulti with switch (gen)")
+    m = re.search(r"Finished computing initial states: (\d+) distinct state", r1.log)
+    r1.init_states = int(m.group(1)) if m else 0
+    replay(ctx, [("multiswitch", r1)], "multi-switch", test="^TestMultiSwitch$", count=False)
+    lost = ctx.extra.get("multi_switch_behaviours_where_primary_lost_an_applied_call", 0)
+    # ... and on that model TLC finds that a call in flight on the old primary mirrors its output over the new one
+    r2 = ctx.tlc("kvcas", "KVMulti", cfg="MCM.cfg", subst=msubst(2, 1, 1, False, "NoLostOnPrimary"), timeout=300, deadlock=False,
+                 workers=4, count=False)
+    ctx.extra["outside_quantifier_multi_primary_switch"] = (
+        "NoLostOnPrimary %s on KVMulti.tla with one switch; the real MultiClient lost a call applied to the current primary in %d "
+        "of the replayed behaviours (Begin(c1) on memberlist, its write lands, switch to inmemory, CAS(c2) on inmemory returns, "
+        "c1's mirror write overwrites inmemory)" % ("violated" if r2.violated == "NoLostOnPrimary" else "NOT violated (rc=%s)" % r2.rc, lost))
+    ctx.log("multi-switch: " + ctx.extra["outside_quantifier_multi_primary_switch"])
